@@ -415,6 +415,18 @@ def run(ctx):
             ctx.violation("CLI-4", (cli_adt or "Cli", f), "threshold flag --%s has no value parser: zero reaches the library's documented panic" % fields[f]["flag"])
     ctx.floor("CLI-4", "threshold flags", len(thr), 2)
 
+    # ---- CLI-8: no lossy decoding of input
+    ctx.rule("CLI-8", "no input channel decodes bytes lossily (String::from_utf8_lossy / to_string_lossy / from_utf8_unchecked): invalid UTF-8 must end in an error, not in U+FFFD test cases")
+    nl = 0
+    for b8 in bin_.bodies:
+        for bi8, t8 in b8.calls():
+            n8 = callee_name(t8) or ""
+            if re.search(r"::from_utf8_lossy$|::to_string_lossy$|::from_utf8_unchecked$|::from_utf8_lossy_owned$", n8):
+                nl += 1
+                ctx.violation("CLI-8", (b8.path, n8.rsplit("::", 1)[-1]), "input bytes are decoded with %s: invalid UTF-8 is silently replaced by U+FFFD (or accepted unchecked) and a pattern is "
+                              "printed with exit status 0, where the library and the other channels report `not valid UTF-8`" % n8, b8.loc(t8.get("line")))
+    if not nl:
+        ctx.ok("CLI-8", "bin crate: no lossy decoder", {"bodies": len(bin_.bodies)}, None)
     # ---- CLI-5
     cg = callgraph.CallGraph(bin_)
     reach = cg.reachable(["main"])
